@@ -226,7 +226,7 @@ func runScheduled(e *env, in input, height int64, f *finding) (*blockRun, string
 				want = seq.Reads[st.T-1][st.I-1] // the sequential reference does not depend on the schedule
 			}
 			if st.K == "r" && val != want {
-				f.set(true, "parexec:read-not-sequential"+wrSuffix(in), fmt.Sprintf("step %d: tx %d operation %d read %s = %d, the specification (= sequential execution) says %d",
+				f.set(true, "parexec:read-not-sequential"+wrSuffix(in, st.T, st.A), fmt.Sprintf("step %d: tx %d operation %d read %s = %d, the specification (= sequential execution) says %d",
 					i, st.T, st.I, st.A, val, want))
 			}
 		case "end":
@@ -299,12 +299,12 @@ func runScheduled(e *env, in input, height int64, f *finding) (*blockRun, string
 	return r, desync(len(in.Steps), "behaviour ended before the block finished")
 }
 
-// wrSuffix marks blocks that contain a world-read-lock transaction (an input class of its own in violation keys).
-func wrSuffix(in input) string {
-	for _, p := range progsOf(in) {
-		if p.World == "R" {
-			return ":world-read-lock"
-		}
+// wrSuffix marks a read that a world-read-lock transaction makes through the world lock (not through a write lock of its
+// own): an input class of its own in violation keys. Every other violation in the same block keeps its plain key.
+func wrSuffix(in input, t int, a string) string {
+	ps := progsOf(in)
+	if t >= 1 && t <= len(ps) && ps[t-1].World == "R" && ps[t-1].Lock[a] != "W" {
+		return ":world-read-lock"
 	}
 	return ""
 }
@@ -488,7 +488,7 @@ func runCase(e *env, in input, caseNo int, out *tlaio.Out, id string, detail int
 		}
 		for _, rd := range fr.reads {
 			if rd.T <= seq.First && rd.Val != seq.Reads[rd.T-1][rd.I-1] {
-				f.set(true, "parexec:read-not-sequential"+wrSuffix(in), fmt.Sprintf("free-running concurrent execution (level %d): tx %d operation %d read %s = %d, sequential execution gives %d",
+				f.set(true, "parexec:read-not-sequential"+wrSuffix(in, rd.T, rd.A), fmt.Sprintf("free-running concurrent execution (level %d): tx %d operation %d read %s = %d, sequential execution gives %d",
 					in.Level, rd.T, rd.I, rd.A, rd.Val, seq.Reads[rd.T-1][rd.I-1]))
 			}
 		}
@@ -537,7 +537,7 @@ func judge(e *env, who string, level int, r *blockRun, res, want string, failing
 	}
 	for a, v := range seq.Final {
 		if bal[a] != v {
-			f.set(true, who+":final-state-differs"+wrSuffix(in), fmt.Sprintf("%s (level %d): final value of %s is %d, sequential execution gives %d", who, level, a, bal[a], v))
+			f.set(true, who+":final-state-differs", fmt.Sprintf("%s (level %d): final value of %s is %d, sequential execution gives %d", who, level, a, bal[a], v))
 		}
 	}
 	return hash
